@@ -878,6 +878,7 @@ class unreach (packet_base, unpack_new_adapter):
   MIN_LEN = 4
 
   def __init__ (self, raw=None, prev=None, **kw):
+    packet_base.__init__(self)
 
     self.prev = prev
 
@@ -889,9 +890,7 @@ class unreach (packet_base, unpack_new_adapter):
     self._init(kw)
 
   def __str__ (self):
-    s = ''.join(('[', 'm:', str(self.next_mtu), ']'))
-
-    return _str_rest(s, self)
+    return "[ICMP6 unreach]"
 
   def parse (self, raw):
     assert isinstance(raw, bytes)
@@ -906,10 +905,10 @@ class unreach (packet_base, unpack_new_adapter):
 
     self.parsed = True
 
-    from . import ipv6
+    from .ipv6 import ipv6
     # xxx We're assuming this is IPv6!
     if dlen >= 8 + ipv6.MIN_LEN:
-      self.next = ipv6.ipv6(raw=raw[unreach.MIN_LEN:],prev=self)
+      self.next = ipv6(raw=raw[unreach.MIN_LEN:],prev=self)
     else:
       self.next = raw[unreach.MIN_LEN:]
 
